@@ -143,6 +143,41 @@ class Ctx:
         self.traces += len(records)
         return bad
 
+    def selftest_corrupt(self, module, records, bad, corrupt=None, per_kind=3, kind=lambda r: r.get("ev"), **kw):
+        """Binding self-test: alter one observed field of a few accepted records; the trace specification must
+        reject every altered record (otherwise the clause is vacuous: machinery failure)."""
+        import copy
+
+        def default_corrupt(r):
+            for fld in ("out", "out2", "integ"):
+                o = r.get(fld)
+                if isinstance(o, dict) and o.get("k") == "array" and o.get("flat"):
+                    v = o["flat"][-1]
+                    o["flat"][-1] = (v + 1) if isinstance(v, int) else 0
+                    return True
+            return False
+
+        corrupt = corrupt or default_corrupt
+        picked, seen = [], {}
+        for r in records:
+            k = kind(r)
+            if r["id"] in bad or seen.get(k, 0) >= per_kind:
+                continue
+            c = copy.deepcopy(r)
+            if corrupt(c):
+                seen[k] = seen.get(k, 0) + 1
+                picked.append(c)
+        if not picked:
+            return
+        traces_before = self.traces
+        rej = self.validate(module, picked, **kw)
+        self.traces = traces_before  # altered records are not executions of the implementation
+        missed = [c["id"] for c in picked if c["id"] not in rej]
+        self.extra.setdefault("corrupt_trace_selftest", []).append(
+            {"module": module, "altered": len(picked), "rejected": len(picked) - len(missed), "kinds": seen})
+        if missed:
+            raise Machinery(f"corrupt-trace self-test: {module} accepted altered records {missed[:5]}")
+
     # ---------------------------------------------------------------- bookkeeping
     def reject(self, key, what, record):
         self.rejections.append({"key": key, "what": what, "record": record})
